@@ -19,10 +19,14 @@ import (
 // StrategyManager manages state for load balancing strategies across a single Gate instance.
 // This eliminates global state and allows multiple Gate instances in the same process.
 type StrategyManager struct {
-	// Shared random source for all random operations
-	rng *rand.Rand
+	// Shared random source for all random operations.
+	// *rand.Rand is not safe for concurrent use; rngMu guards it.
+	rngMu sync.Mutex
+	rng   *rand.Rand
 
-	// Round-robin state per route host
+	// Round-robin state per route host.
+	// roundRobinMu makes the read-increment-write of an index one step.
+	roundRobinMu      sync.Mutex
 	roundRobinIndexes *sync.Map // map[string]int
 
 	// Connection counters for least-connections strategy
@@ -168,7 +172,9 @@ func (sm *StrategyManager) randomNextBackend(log logr.Logger, backends []string)
 	}
 
 	// Simple random selection - let tryBackends handle health checking via actual dials
+	sm.rngMu.Lock()
 	randIndex := sm.rng.Intn(len(backends))
+	sm.rngMu.Unlock()
 	backend := backends[randIndex]
 
 	return backend, log, true
@@ -180,11 +186,13 @@ func (sm *StrategyManager) roundRobinNextBackend(log logr.Logger, routeHost stri
 	}
 
 	// Get next backend in round-robin order
+	sm.roundRobinMu.Lock()
 	value, _ := sm.roundRobinIndexes.LoadOrStore(routeHost, 0)
 	index := value.(int)
+	sm.roundRobinIndexes.Store(routeHost, index+1)
+	sm.roundRobinMu.Unlock()
 
 	backend := backends[index%len(backends)]
-	sm.roundRobinIndexes.Store(routeHost, index+1)
 
 	return backend, log, true
 }
